@@ -154,8 +154,12 @@ def pdf(I, R, Dd, name="p", cls="GaussianPDF", args="full", diag=False):
     kw = dict(mu=nf.atom(f"mu({name})", [R, Dd], owner=name))
     if diag:
         kw["Sigma"] = diag_matrix(f"Sigma({name})", R, Dd)
-        if args != "Sigma":
-            raise nf.Undecided("diag pdf with explicit Lambda")
+        if args == "Sigma+Lambda":
+            # consistent user input for a diagonal covariance: Lambda = diag(1 / diag(Sigma)); ln_det_Sigma left to the constructor
+            vec = nf.atom(f"diag(Sigma({name}))", [R, Dd], owner=name)
+            kw["Lambda"] = nf.mul(nf.expand_dims(nf.elementwise("Recip", vec), ["k", "k", None]), nf.eye(Dd))
+        elif args != "Sigma":
+            raise nf.Undecided("diag pdf with explicit Lambda and log-determinant")
         return I.construct(cls, kw)
     kw["Sigma"] = nf.atom(f"Sigma({name})", [R, Dd, Dd], sym=True, owner=name)
     if args in ("Sigma+Lambda", "full"):
@@ -181,7 +185,9 @@ def conditional(I, R, Dy, Dx, name="c", cls="ConditionalGaussianPDF", args="full
             kw["Lambda"] = diag_matrix(f"Lambda({name})", R, Dy)
         else:
             kw["Sigma"] = diag_matrix(f"Sigma({name})", R, Dy)
-        return I.construct(cls, kw)
+        o = I.construct(cls, kw)
+        o.meta["given"] = {k: v for k, v in kw.items() if k in ("M", "b")}
+        return o
     parts = set(args.split("+")) if args != "full" else {"Sigma", "Lambda", "lndet"}
     if "Sigma" in parts:
         kw["Sigma"] = nf.atom(f"Sigma({name})", [R, Dy, Dy], sym=True, owner=name)
